@@ -33,7 +33,9 @@ func c03Types() []c03Type {
 	innerZero := desc.V{E: []desc.V{{}, {}}}
 	innerSet := desc.V{E: []desc.V{{I: 3}, {S: "x"}}}
 	var out []c03Type
-	out = append(out, c03Type{"string", desc.Scalar("string"), []c03State{{"zero", desc.V{}, true, true}, {"set", desc.Str("abc"), false, false}, {"set-cjk", desc.Str("测试"), false, false}, {"set-digits", desc.Str("12"), false, false}}})
+	out = append(out, c03Type{"string", desc.Scalar("string"), []c03State{{"zero", desc.V{}, true, true}, {"set", desc.Str("abc"), false, false}, {"set-cjk", desc.Str("测试"), false, false}, {"set-digits", desc.Str("12"), false, false},
+		// bytes that are no valid UTF-8 (text in GBK / Latin-1): a value like any other, and not an empty one
+		{"set-invalid-utf8", desc.V{SB: []byte{0xff, 0xfe}}, false, false}, {"set-invalid-utf8-gbk", desc.V{SB: []byte{0xb2, 0xe2, 0xca, 0xd4}}, false, false}}})
 	for _, k := range []string{"int", "int8", "int16", "int32", "int64"} {
 		out = append(out, c03Type{k, desc.Scalar(k), []c03State{{"zero", desc.V{}, true, true}, {"set", desc.V{I: 5}, false, false}, {"set-neg", desc.V{I: -1}, false, false}}})
 	}
@@ -176,6 +178,9 @@ func enumC03(t *testing.T) {
 				if (car == "url" || car == "urlenc") && !st.zero && !urlSafe(st.val.S) {
 					continue
 				}
+				if car == "url" && st.val.SB != nil {
+					continue // (a raw URL cannot carry such bytes; the percent-encoded form does)
+				}
 				ruleSets := [][]string{{"required"}, {"required|need it"}, {"required|必填项"}}
 				for _, r := range c03Rules {
 					ruleSets = append(ruleSets, []string{r}, []string{"required", r}, []string{r, "required|need it"})
@@ -276,7 +281,7 @@ func TestC03(t *testing.T) {
 					rs = append(rs, rapid.SampledFrom(c03Rules).Draw(t, "rule"))
 				}
 			}
-			if (car == "url" || car == "urlenc") && !st.zero && !urlSafe(st.val.S) {
+			if ((car == "url" || car == "urlenc") && !st.zero && !urlSafe(st.val.S)) || (car == "url" && st.val.SB != nil) {
 				return
 			}
 			missing := car != "var" && car != "tag" && car != "rm" && st.zero && rapid.Bool().Draw(t, "missing")
